@@ -20,7 +20,93 @@ use vls_persist::kvv::cloud::CloudKVVStore;
 use vls_persist::kvv::memory::MemoryKVVStore;
 use vls_persist::kvv::{JsonFormat, KVVPersister, KVVStore, KVV};
 
-pub type MemPersister = KVVPersister<MemoryKVVStore, JsonFormat>;
+pub type MemPersister = KVVPersister<FaultyKVV<MemoryKVVStore>, JsonFormat>;
+
+/// Fault injection at the storage backend: a pass-through `KVVStore` whose next `armed` writing calls fail with
+/// `Error::Unavailable` ("temporarily unavailable, might work later") without touching the inner store.
+/// Never armed unless a driver asks for it.
+pub struct FaultyKVV<L: KVVStore> {
+    pub inner: L,
+    armed: std::sync::atomic::AtomicU64,
+    fired: std::sync::atomic::AtomicU64,
+    /// writing calls still let through before the armed failures begin
+    skip: std::sync::atomic::AtomicU64,
+}
+
+impl<L: KVVStore> FaultyKVV<L> {
+    pub fn new(inner: L) -> Self {
+        FaultyKVV { inner, armed: Default::default(), fired: Default::default(), skip: Default::default() }
+    }
+    /// after `skip` more writing calls, the next `n` writing calls fail
+    pub fn arm(&self, skip: u64, n: u64) {
+        self.skip.store(skip, std::sync::atomic::Ordering::SeqCst);
+        self.armed.store(n, std::sync::atomic::Ordering::SeqCst);
+    }
+    /// stop failing; returns how many calls were failed since the last `disarm`
+    pub fn disarm(&self) -> u64 {
+        self.armed.store(0, std::sync::atomic::Ordering::SeqCst);
+        self.skip.store(0, std::sync::atomic::Ordering::SeqCst);
+        self.fired.swap(0, std::sync::atomic::Ordering::SeqCst)
+    }
+    fn trip(&self) -> Result<(), lightning_signer::persist::Error> {
+        use std::sync::atomic::Ordering::SeqCst;
+        if self.armed.load(SeqCst) > 0 && self.skip.load(SeqCst) > 0 {
+            self.skip.fetch_sub(1, SeqCst);
+            return Ok(());
+        }
+        let mut cur = self.armed.load(SeqCst);
+        while cur > 0 {
+            match self.armed.compare_exchange(cur, cur - 1, SeqCst, SeqCst) {
+                Ok(_) => {
+                    self.fired.fetch_add(1, SeqCst);
+                    return Err(lightning_signer::persist::Error::Unavailable("injected storage failure".into()));
+                }
+                Err(c) => cur = c,
+            }
+        }
+        Ok(())
+    }
+}
+
+impl<L: KVVStore> lightning_signer::SendSync for FaultyKVV<L> {}
+
+impl<L: KVVStore> KVVStore for FaultyKVV<L> {
+    type Iter = L::Iter;
+    fn put(&self, key: &str, value: Vec<u8>) -> Result<(), lightning_signer::persist::Error> {
+        self.trip()?;
+        self.inner.put(key, value)
+    }
+    fn put_with_version(&self, key: &str, version: u64, value: Vec<u8>) -> Result<(), lightning_signer::persist::Error> {
+        self.trip()?;
+        self.inner.put_with_version(key, version, value)
+    }
+    fn put_batch(&self, kvvs: Vec<KVV>) -> Result<(), lightning_signer::persist::Error> {
+        self.trip()?;
+        self.inner.put_batch(kvvs)
+    }
+    fn get(&self, key: &str) -> Result<Option<(u64, Vec<u8>)>, lightning_signer::persist::Error> {
+        self.inner.get(key)
+    }
+    fn get_version(&self, key: &str) -> Result<Option<u64>, lightning_signer::persist::Error> {
+        self.inner.get_version(key)
+    }
+    fn get_prefix(&self, prefix: &str) -> Result<Self::Iter, lightning_signer::persist::Error> {
+        self.inner.get_prefix(prefix)
+    }
+    fn delete(&self, key: &str) -> Result<(), lightning_signer::persist::Error> {
+        self.trip()?;
+        self.inner.delete(key)
+    }
+    fn clear_database(&self) -> Result<(), lightning_signer::persist::Error> {
+        self.inner.clear_database()
+    }
+    fn reset_versions(&self) -> Result<(), lightning_signer::persist::Error> {
+        self.inner.reset_versions()
+    }
+    fn signer_id(&self) -> lightning_signer::persist::SignerId {
+        self.inner.signer_id()
+    }
+}
 pub type CloudPersister = KVVPersister<CloudKVVStore<MemoryKVVStore>, JsonFormat>;
 
 pub const SIGNER_ID: [u8; 16] = [7u8; 16];
@@ -33,9 +119,50 @@ pub enum Store {
 
 pub type Dump = Vec<(String, u64, Vec<u8>)>;
 
+/// What an external (cloud) store holds after receiving every `Mutations` object the signer reported from
+/// `prepare()`: per key the highest version seen.  A mutation that does not raise the version of its key is a
+/// put conflict there; it is recorded, never applied.
+#[derive(Default)]
+pub struct External {
+    pub kv: std::collections::BTreeMap<String, (u64, Vec<u8>)>,
+    pub conflicts: Vec<String>,
+    pub batches: u64,
+}
+
+impl External {
+    pub fn apply(&mut self, muts: &[(String, (u64, Vec<u8>))]) {
+        if muts.is_empty() {
+            return;
+        }
+        self.batches += 1;
+        for (k, (ver, val)) in muts {
+            match self.kv.get(k) {
+                Some((have, hv)) if *ver < *have || (*ver == *have && hv != val) =>
+                    self.conflicts.push(format!("{} reported at version {} but the external store has version {}", k, ver, have)),
+                _ => {
+                    self.kv.insert(k.clone(), (*ver, val.clone()));
+                }
+            }
+        }
+    }
+}
+
 impl Store {
     pub fn new_mem() -> Store {
-        Store::Mem(Arc::new(KVVPersister(MemoryKVVStore::new(SIGNER_ID), JsonFormat)))
+        Store::Mem(Arc::new(KVVPersister(FaultyKVV::new(MemoryKVVStore::new(SIGNER_ID)), JsonFormat)))
+    }
+    /// storage faults (in-memory backend only): after `skip` writing calls the next `n` fail
+    pub fn arm_faults(&self, skip: u64, n: u64) {
+        if let Store::Mem(p) = self {
+            p.0.arm(skip, n);
+        }
+    }
+    /// stop failing; how many writes were failed
+    pub fn disarm_faults(&self) -> u64 {
+        match self {
+            Store::Mem(p) => p.0.disarm(),
+            _ => 0,
+        }
     }
     pub fn new_cloud() -> Store {
         Store::Cloud(Arc::new(KVVPersister(
@@ -68,7 +195,7 @@ impl Store {
             Store::Mem(_) => {
                 let s = MemoryKVVStore::new(SIGNER_ID);
                 s.put_batch(kvvs).expect("copy");
-                Store::Mem(Arc::new(KVVPersister(s, JsonFormat)))
+                Store::Mem(Arc::new(KVVPersister(FaultyKVV::new(s), JsonFormat)))
             }
             Store::Cloud(_) => {
                 let s = MemoryKVVStore::new(SIGNER_ID);
@@ -127,6 +254,8 @@ pub struct World {
     pub clock: Arc<ManualClock>,
     pub node: Arc<Node>,
     pub restarts: u64,
+    /// cloud mode only: replica built from the reported mutations alone
+    pub external: Arc<std::sync::Mutex<External>>,
 }
 
 fn starting_time_factory() -> Arc<dyn StartingTimeFactory> {
@@ -145,6 +274,15 @@ pub fn services(cfg: &WorldCfg, store: &Store, clock: Arc<ManualClock>) -> NodeS
 
 /// Build (new or restored) exactly as HandlerBuilder::build does
 pub fn build_node(cfg: &WorldCfg, store: &Store, clock: Arc<ManualClock>) -> Result<Arc<Node>, String> {
+    build_node_ext(cfg, store, clock, None)
+}
+
+pub fn build_node_ext(
+    cfg: &WorldCfg,
+    store: &Store,
+    clock: Arc<ManualClock>,
+    external: Option<&Arc<std::sync::Mutex<External>>>,
+) -> Result<Arc<Node>, String> {
     let svc = services(cfg, store, clock);
     let persister = store.as_persist();
     let cloud = store.is_cloud();
@@ -177,7 +315,10 @@ pub fn build_node(cfg: &WorldCfg, store: &Store, clock: Arc<ManualClock>) -> Res
         Node::restore_node(&node_id, entry, &cfg.seed, svc).map_err(|e| format!("restore: {:?}", e))?
     };
     if cloud {
-        let _muts = persister.prepare();
+        let muts = persister.prepare();
+        if let Some(x) = external {
+            x.lock().unwrap().apply(muts.inner());
+        }
         persister.commit().map_err(|e| format!("commit: {:?}", e))?;
     }
     Ok(node)
@@ -187,8 +328,9 @@ impl World {
     pub fn new(cfg: WorldCfg) -> World {
         let store = if cfg.cloud { Store::new_cloud() } else { Store::new_mem() };
         let clock = Arc::new(ManualClock::new(Duration::from_secs(cfg.start_time)));
-        let node = build_node(&cfg, &store, clock.clone()).expect("new node");
-        World { cfg, store, clock, node, restarts: 0 }
+        let external = Arc::new(std::sync::Mutex::new(External::default()));
+        let node = build_node_ext(&cfg, &store, clock.clone(), Some(&external)).expect("new node");
+        World { cfg, store, clock, node, restarts: 0, external }
     }
 
     pub fn now(&self) -> u64 {
@@ -202,7 +344,7 @@ impl World {
 
     /// Drop the running node and rebuild it from the store alone
     pub fn restart(&mut self) -> Result<(), String> {
-        let node = build_node(&self.cfg, &self.store, self.clock.clone())?;
+        let node = build_node_ext(&self.cfg, &self.store, self.clock.clone(), Some(&self.external))?;
         self.node = node;
         self.restarts += 1;
         Ok(())
@@ -211,6 +353,19 @@ impl World {
     /// A second signer restored from a deep copy of the store (the first keeps running)
     pub fn crash_copy(&self) -> Result<(Store, Arc<Node>), String> {
         let copy = self.store.deep_copy();
+        let clock = Arc::new(ManualClock::new(self.clock.now()));
+        let node = build_node(&self.cfg, &copy, clock)?;
+        Ok((copy, node))
+    }
+
+    /// Cloud mode: a signer restored from what the external store holds, i.e. from the reported mutations
+    /// alone (the restart after a crash between `prepare` and `commit`, or on another machine)
+    pub fn crash_copy_external(&self) -> Result<(Store, Arc<Node>), String> {
+        let kvvs: Vec<KVV> =
+            self.external.lock().unwrap().kv.iter().map(|(k, (v, vv))| KVV(k.clone(), (*v, vv.clone()))).collect();
+        let s = MemoryKVVStore::new(SIGNER_ID);
+        s.put_batch(kvvs).map_err(|e| format!("external replica not loadable: {:?}", e))?;
+        let copy = Store::Cloud(Arc::new(KVVPersister(CloudKVVStore::new(s), JsonFormat)));
         let clock = Arc::new(ManualClock::new(self.clock.now()));
         let node = build_node(&self.cfg, &copy, clock)?;
         Ok((copy, node))
@@ -225,6 +380,7 @@ impl World {
             let r = f(&self.node);
             let muts = p.prepare();
             let n = muts.len();
+            self.external.lock().unwrap().apply(muts.inner());
             p.commit().expect("commit");
             (r, n)
         } else {
